@@ -476,15 +476,7 @@ func ApplyConnectCAOperationFromRequest(state *state.Store, req *structs.CAReque
 
 		return true
 	case structs.CAOpSetRootsAndConfig:
-		act, err := state.CARootSetCAS(index, req.Index, req.Roots)
-		if err != nil {
-			return err
-		}
-		if !act {
-			return act
-		}
-
-		act, err = state.CACheckAndSetConfig(index, req.Config.ModifyIndex, req.Config)
+		act, err := state.CARootSetCASAndCheckAndSetConfig(index, req.Index, req.Roots, req.Config.ModifyIndex, req.Config)
 		if err != nil {
 			return err
 		}
